@@ -112,6 +112,12 @@ structure Node where
   zone : String
   deriving DecidableEq, Repr, Inhabited
 
+/-- a Namespace: the only thing read is the traffic-distribution annotation -/
+structure Ns where
+  name : String
+  td : Bool                -- annotation networking.istio.io/traffic-distribution: PreferClose
+  deriving DecidableEq, Repr, Inhabited
+
 def Svc.key (s : Svc) : String := s.ns ++ "/" ++ s.name
 def Slice.key (s : Slice) : String := s.ns ++ "/" ++ s.name
 def Pod.key (p : Pod) : String := p.ns ++ "/" ++ p.name
@@ -275,9 +281,18 @@ def dedupEps : List String → List IEp → List IEp
     let k := e.addr ++ "|" ++ e.portName
     if seen.contains k then dedupEps seen r else e :: dedupEps (k :: seen) r
 
-/-- `endpointSliceCache.get`: all endpoints of a host, first occurrence of (address, port name) wins -/
+/-- insertion into a list sorted by key (`slices.Sort` on the slice names) -/
+def insertKey {α : Type} (kv : String × α) : List (String × α) → List (String × α)
+  | [] => [kv]
+  | x :: r => if kv.1 ≤ x.1 then kv :: x :: r else x :: insertKey kv r
+
+/-- the entries in key order (insertion sort: structural, so the kernel can evaluate it) -/
+def sortKeys {α : Type} (l : List (String × α)) : List (String × α) := l.foldr insertKey []
+
+/-- `endpointSliceCache.get`: all endpoints of a host, slices walked in NAME order, first occurrence
+    of (address, port name) wins -/
 def cacheGet (c : SliceCache) (host : String) : List IEp :=
-  dedupEps [] (((alookup host c).getD []).flatMap (·.2))
+  dedupEps [] ((sortKeys ((alookup host c).getD [])).flatMap (·.2))
 
 /-! ### EndpointIndex, restricted to this registry's shard -/
 
@@ -309,6 +324,7 @@ inductive Ev
   | svcAdd (s : Svc) | svcUpd (old new : Svc) | svcDel (s : Svc)
   | podAdd (p : Pod) | podUpd (old new : Pod) | podDel (p : Pod)
   | slAdd (s : Slice) | slUpd (old new : Slice) | slDel (s : Slice)
+  | nsAdd (n : Ns) | nsUpd (old new : Ns) | nsDel (n : Ns)
   | replay (key : String)
   deriving DecidableEq, Repr, Inhabited
 
@@ -319,6 +335,7 @@ structure Ctl where
   slices : List Slice := []
   pods : List Pod := []
   nodes : List Node := []
+  nss : List Ns := []
   -- controller caches
   smap : List (String × Svc) := []                 -- servicesMap (hostname -> the converted service)
   cache : SliceCache := []                         -- endpointsByServiceAndSlice
@@ -365,6 +382,11 @@ def sliceDelete (s : Ctl) (sl : Slice) : Ctl :=
   let s := { s with resync := endpointsDeleted s.resync sl.key sl.allAddrs,
                     cache := cacheDelete s.cache sl.host sl.name }
   pushEDS s sl.host sl.ns
+
+/-- `onEventInternal` for an update (with fix 1e33f42): a slice whose service-name label was edited is first
+    removed from the cache of its previous Service -/
+def sliceEvent (s : Ctl) (o sl : Slice) : Ctl :=
+  sliceUpsert (if o.svc ≠ sl.svc then sliceDelete s o else s) (some o) sl
 
 /-! ### Service handler -/
 
@@ -471,14 +493,35 @@ def podEvent (s : Ctl) (old : Option Pod) (p : Pod) (k : PodEvKind) : Ctl × Lis
 
 /-! ### the queue -/
 
+/-- `ConvertService` with the namespace annotations read from the namespace store at handler time:
+    the traffic distribution of the namespace applies when the Service has none -/
+def convNs (nss : List Ns) (svc : Svc) : Svc :=
+  match nss.find? (fun n => n.name = svc.ns) with
+  | some n => if n.td then { svc with td := true } else svc
+  | none => svc
+
+/-- `reprocessServicesInNamespace`: `onServiceEvent(svc, svc, Update)` for every Service of the store -/
+def reprocessNs (s : Ctl) (ns : String) : Ctl :=
+  (s.svcs.filter (fun sv => sv.ns = ns)).foldl (fun s sv => serviceUpsert s (convNs s.nss sv)) s
+
 /-- handle one event against the current stores (`registerHandlers`: add/update handlers re-read the
     latest object and skip when it is gone); returns the replays it queued -/
 def handle (s : Ctl) : Ev → Ctl × List Ev
   | .svcAdd v | .svcUpd _ v =>
     match findSvc s.svcs v.ns v.name with
     | none => (s, [])
-    | some cur => (serviceUpsert s cur, [])
+    | some cur => (serviceUpsert s (convNs s.nss cur), [])
   | .svcDel v => (serviceDelete s v, [])
+  -- the Namespace handler (with fix 70cda90): the annotation before / after the event differs
+  | .nsAdd v =>
+    match s.nss.find? (fun n => n.name = v.name) with
+    | none => (s, [])
+    | some cur => (if cur.td then reprocessNs s cur.name else s, [])
+  | .nsUpd o v =>
+    match s.nss.find? (fun n => n.name = v.name) with
+    | none => (s, [])
+    | some cur => (if o.td ≠ cur.td then reprocessNs s cur.name else s, [])
+  | .nsDel v => (if v.td then reprocessNs s v.name else s, [])
   | .podAdd v =>
     match findPod s.pods v.ns v.name with
     | none => (s, [])
@@ -495,7 +538,7 @@ def handle (s : Ctl) : Ev → Ctl × List Ev
   | .slUpd o v =>
     match findSlice s.slices v.ns v.name with
     | none => (s, [])
-    | some cur => (sliceUpsert s (some o) cur, [])
+    | some cur => (sliceEvent s o cur, [])
   | .slDel v => (sliceDelete s v, [])
   | .replay key =>
     match s.slices.find? (fun sl => sl.key = key) with
@@ -520,6 +563,9 @@ structure State where
   c : Ctl := {}
   queue : List Ev := []
   held : Bool := false
+  /-- pods that exist at the API server but are invisible to the pod informer: its field selector is
+      `status.phase!=Failed` (a pod that turns Failed is delivered as a DELETE carrying the new object) -/
+  hidden : List String := []
   deriving Repr, Inhabited
 
 def drain (s : State) : State := { s with c := runAll s.c s.queue, queue := [] }
@@ -547,11 +593,33 @@ def writeSlice (s : State) (v : Slice) : State :=
     | some o => Ev.slUpd o v
   enqueue s { s.c with slices := upsertBy (fun x => x.ns = v.ns ∧ x.name = v.name) v s.c.slices } e
 
-def writePod (s : State) (v : Pod) : State :=
+def writePodVisible (s : State) (v : Pod) : State :=
   let e := match findPod s.c.pods v.ns v.name with
     | none => Ev.podAdd v
     | some o => Ev.podUpd o v
   enqueue s { s.c with pods := upsertBy (fun x => x.ns = v.ns ∧ x.name = v.name) v s.c.pods } e
+
+/-- a write of a Failed pod: the informer sees a DELETE whose object is the new (Failed) pod if it
+    knew the pod, nothing otherwise -/
+def evictPod (s : State) (v : Pod) : State :=
+  let s := { s with hidden := if s.hidden.contains v.key then s.hidden else s.hidden ++ [v.key] }
+  match findPod s.c.pods v.ns v.name with
+  | none => s
+  | some _ => enqueue s { s.c with pods := s.c.pods.filter (fun x => !(x.ns = v.ns ∧ x.name = v.name)) } (.podDel v)
+
+def writePod (s : State) (v : Pod) : State :=
+  if v.phase = "F" then evictPod s v
+  else writePodVisible { s with hidden := s.hidden.filter (· ≠ v.key) } v
+
+def writeNs (s : State) (v : Ns) : State :=
+  let e := match s.c.nss.find? (fun n => n.name = v.name) with
+    | none => Ev.nsAdd v
+    | some o => Ev.nsUpd o v
+  enqueue s { s.c with nss := upsertBy (fun x => x.name = v.name) v s.c.nss } e
+
+def delNs (s : State) (name : String) : Option State :=
+  (s.c.nss.find? (fun n => n.name = name)).map fun o =>
+    enqueue s { s.c with nss := s.c.nss.filter (fun x => !(x.name = name)) } (.nsDel o)
 
 /-- Node events do not touch the observed caches (`onNodeEvent` only maintains node-port
     gateway data); the node store is read when endpoints are built. -/
@@ -567,8 +635,12 @@ def delSlice (s : State) (ns name : String) : Option State :=
     enqueue s { s.c with slices := s.c.slices.filter (fun x => !(x.ns = ns ∧ x.name = name)) } (.slDel o)
 
 def delPod (s : State) (ns name : String) : Option State :=
-  (findPod s.c.pods ns name).map fun o =>
-    enqueue s { s.c with pods := s.c.pods.filter (fun x => !(x.ns = ns ∧ x.name = name)) } (.podDel o)
+  match findPod s.c.pods ns name with
+  | some o => some (enqueue s { s.c with pods := s.c.pods.filter (fun x => !(x.ns = ns ∧ x.name = name)) } (.podDel o))
+  | none =>
+    -- a Failed pod is deleted at the API server: the informer never knew it
+    if s.hidden.contains (ns ++ "/" ++ name) then some { s with hidden := s.hidden.filter (· ≠ ns ++ "/" ++ name) }
+    else none
 
 def delNode (s : State) (name : String) : Option State :=
   if s.c.nodes.any (·.name = name) then
@@ -585,6 +657,7 @@ inductive Op
   | slice (v : Slice) | delSlice (ns name : String)
   | pod (v : Pod) | delPod (ns name : String)
   | node (v : Node) | delNode (name : String)
+  | ns (v : Ns) | delNs (name : String)
   | hold | release
   deriving DecidableEq, Repr, Inhabited
 
@@ -598,6 +671,8 @@ def applyOp (s : State) : Op → Option State
   | .delPod ns n => delPod s ns n
   | .node v => some (writeNode s v)
   | .delNode n => delNode s n
+  | .ns v => some (writeNs s v)
+  | .delNs n => delNs s n
   | .hold => some (hold s)
   | .release => some (release s)
 
@@ -625,6 +700,7 @@ def hostView (s : Ctl) (host : String) : Option HostView :=
 def finalOps (s : Ctl) (order : List String) : List Op :=
   order.flatMap fun k =>
     if k = "node" then s.nodes.map Op.node
+    else if k = "ns" then s.nss.map Op.ns
     else if k = "svc" then s.svcs.map Op.svc
     else if k = "pod" then s.pods.map Op.pod
     else if k = "slice" then s.slices.map Op.slice
